@@ -211,7 +211,18 @@ def check_material(case, v):
             text = f"{extra} * " + text
         elif op == "sum":
             other = build(extra, norm, nat, "dict")
-            mat = mat + other
+            left = mat
+            mat = left + other
+            # the operands of a sum are what they were (they may share substances with the result)
+            for who, obj, cs in (("left", left, list(final.items())), ("right", other, [(f, p) for f, p in extra])):
+                nm = [f for f, _p in cs]
+                x0, X0, s0, err0 = read(obj, nm)
+                e0x, e0X = fractions([p for _f, p in cs], [formula_mass(f, nat) for f in nm], norm)
+                if err0 or not (_cmp(v, text + f" + Material({extra!r}): the {who} operand afterwards", x0, e0x, "x") and
+                                _cmp(v, text + f" + Material({extra!r}): the {who} operand afterwards", X0, e0X, "X")):
+                    if err0:
+                        v.fail("components", f"{text}: {who} operand after the sum: {err0}")
+                    return
             for f, p in extra:
                 final[f] = final.get(f, 0) + p
             text += f" + Material({extra!r})"
